@@ -56,6 +56,12 @@ def build_likelihood(case):
     if case['sel'] != list(range(case['n_toy_outputs'])) or case.get('explicit'):
         outputs = ['o%d' % j for j in case['sel']]
     obs, times = case['obs'], case['times']
+    if case.get('int_data') and case['int_data'][1] == 'array':
+        which = case['int_data'][0]
+        if which in ('obs', 'both'):
+            obs = [np.array(o, dtype=int) for o in obs]
+        if which in ('times', 'both'):
+            times = [np.array(t, dtype=int) for t in times]
     if case.get('flat'):
         obs, times = obs[0], times[0]
         ems = ems[0]
@@ -555,6 +561,37 @@ def build(tier, seed):
                 c = make_case(ems, ts, n_toy, sel, seed, tag='z')
                 c['params'][:2] = psi
                 grids.append(c)
+    # negative model outputs (change-from-baseline quantities): fine for the additive
+    # model, and for the combined model while its total scale stays positive
+    for code in ('G', 'CM'):
+        for psi in ([-0.4, 0.3], [-1.1, 0.2]):
+            for ems, ts, n_toy, sel in (([code], [ms[5]], 1, [0]),
+                                        (['G', code], [ms[3], ms[5]], 2, [0, 1])):
+                c = make_case(ems, ts, n_toy, sel, seed, tag='m')
+                c['params'][:2] = psi
+                if code == 'CM':
+                    # sigma_base 1.5, sigma_rel 0.1: positive total scale
+                    k_ = 2 + (1 if ems[0] == 'G' and len(ems) == 2 else 0)
+                    c['params'][k_:k_ + 2] = [1.5, 0.1]
+                grids.append(c)
+    # measurements and / or times that are whole numbers, handed over as Python ints
+    # and as integer arrays (cf. `int_data` in build_likelihood)
+    for code in codes:
+        for ems, n_toy, sel in (([code], 1, [0]), ([code, 'G'], 2, [0, 1])):
+            for which in ('obs', 'times', 'both'):
+                for form in ('list', 'array'):
+                    ts = [[1, 2, 4], [2, 3]][:n_toy]
+                    c = make_case(ems, [[float(t_) for t_ in t] for t in ts],
+                                  n_toy, sel, seed, tag='i')
+                    if which in ('obs', 'both'):
+                        c['obs'] = [[int(max(1, round(v))) for v in o]
+                                    for o in c['obs']]
+                    if which in ('times', 'both'):
+                        c['times'] = [[int(t_) for t_ in t] for t in ts]
+                    else:
+                        c['times'] = [[t_ + 0.25 for t_ in t] for t in ts]
+                    c['int_data'] = [which, form]
+                    grids.append(c)
     # long series with large / small predictions (the sum of per-measurement terms
     # stays finite where a product of scales does not)
     for code in codes:
@@ -713,3 +750,8 @@ META = {
     'level_note': 'Toy closed-form mechanistic model (exact); values from finite '
                   'alphabets; exhaustive over grid structure within the bounds.',
 }
+META['level_text'] += (
+    ' Also: siblings built from one list of user error models and a likelihood buil'
+    't afterwards, dictionaries written from the last entry, zero / negative mechan'
+    'istic parameters, negative model outputs, integer-typed data, near-equal times'
+    '.')
